@@ -299,7 +299,7 @@ class ParseMCNPCell:
             fill_params += [1., 0., 0.,
                             0., 1., 0.,
                             0., 0., 1.]
-        elif '*' in elt:
+        elif fill_params and '*' in elt:
             fill_params = [float(x) for x in fill_params]
             fill_params[3:12] = list(map(to_cos, fill_params[3:12]))
             fill_params = normalize_transform(fill_params)
